@@ -335,6 +335,11 @@ struct Obs(Rc<World>);
 impl Observer for Obs {
     fn point(&self, point: Point) {
         let w = &self.0;
+        if point == Point::AfterStopWake && !w.stop_seen.get() {
+            // the server task is handling a Stop command right now (workers told, accept loop next)
+            w.stop_seen.set(true);
+            w.rec(Rec::StopProcessed);
+        }
         if w.in_nested.get() {
             // nesting depth 1: no further preemption, but the wake-up that follows still counts
             if point == Point::AfterPush {
@@ -802,13 +807,6 @@ impl World {
             }
         }
         self.building_slot.set(None);
-        if !self.stop_seen.get() {
-            let stop_queued = verif::accept_view().map_or(false, |v| v.queue.iter().any(|q| q == "Stop"));
-            if stop_queued || verif::accept_exited() || done.is_some() {
-                self.stop_seen.set(true);
-                self.rec(Rec::StopProcessed);
-            }
-        }
         match done {
             Some(ok) => {
                 self.server_done.set(Some(ok));
